@@ -142,6 +142,19 @@ def r2(ctx, prog):
                             other = cs['ch'][0] if (f.field_of(cs['ch'][1]) or '').endswith('content_length_') else cs['ch'][1]
                             if 'data_size' in q.subtree_paths(f, other) and 'pos' in q.subtree_paths(f, other) and q.expr_text(f, other) in ('(data_size-pos)',):
                                 ok, why = True, 'by the body length after the (data_size - pos) >= content_length_ test'
+        if not ok and st['op'] == '+=' and why == 'unrecognised cursor update':
+            # any other advance: accepted when it is proven to stay inside the data that arrived (linear facts: guards, std::min, monotone counters)
+            from tbxlint import bounds
+            from tbxlint.affine import Aff
+            rhsf = bounds.form(f, st['ch'][1], p)
+            cur_ = bounds.form(f, st['ch'][0], p)
+            newpos = (cur_ + rhsf) if (st['op'] == '+=' and rhsf is not None and cur_ is not None) else rhsf
+            dsz = [p_ for p_ in f.params if p_['n'] == 'data_size']
+            if newpos is not None and dsz:
+                facts = bounds.facts_at(f, p)
+                usyms = bounds.unsigned_syms(f)
+                if bounds.decide(Aff.sym('data_size') - newpos, facts, usyms) and (st['op'] == '=' or bounds.decide(rhsf, facts, usyms)):
+                    ok, why = True, 'forward, by an amount proven to stay inside the data that arrived'
         ctx.ob('C12.R2', '%s|cursor@%s' % (f.name, why.replace(' ', '-')), ok, 'cursor update: ' + why, where=f.loc(st['i']))
     # returns: 0 or the cursor
     for r in q.returns(f):
@@ -397,6 +410,7 @@ def run(ctx):
     ctx.guard(r7, ctx, prog)
     ctx.guard(r8, ctx, prog)
     ctx.guard(r10, ctx, prog)
+    ctx.guard(harden.run_threshold, ctx, prog, 'C12.R11', lambda g: g.file.startswith(MODULES + '/http/server/'), 'HTTP request parser', 1)
     ctx.guard(harden.run, ctx, prog, 'C12.R9', recv_entries(prog),
               lambda g: g.file.startswith(MODULES + '/http/') or g.file.startswith(MODULES + '/util/'), 'HTTP receive/commit path')
     return prog
